@@ -183,6 +183,52 @@ impl TryRng for AmbientRng {
     }
 }
 
+
+/// What `rand::random()` inside sampling_strategy.rs is redirected to under Kani: any use is a
+/// violation ("a function of the validator set and the supplied random source only").  Natively
+/// nothing is redirected; the harnesses' determinism sweep (`SweepRng`) shows the same thing.
+#[cfg(kani)]
+pub(crate) fn ambient_random<T>() -> T {
+    unsafe {
+        G.handles += 1;
+    }
+    assert!(false, "sampling consults ambient randomness: the committee is not a function of the validator set and the supplied random source only");
+    vs::assume(false);
+    // SAFETY: unreachable
+    unsafe { std::mem::zeroed() }
+}
+
+/// Native-only endless random source (xorshift64*) for determinism sweeps.
+#[cfg(not(kani))]
+pub(crate) struct SweepRng(pub u64);
+#[cfg(not(kani))]
+impl SweepRng {
+    fn step(&mut self) -> u64 {
+        let mut x = self.0;
+        x ^= x >> 12;
+        x ^= x << 25;
+        x ^= x >> 27;
+        self.0 = x;
+        x.wrapping_mul(0x2545_F491_4F6C_DD1D)
+    }
+}
+#[cfg(not(kani))]
+impl TryRng for SweepRng {
+    type Error = Infallible;
+    fn try_next_u32(&mut self) -> Result<u32, Infallible> {
+        Ok((self.step() >> 32) as u32)
+    }
+    fn try_next_u64(&mut self) -> Result<u64, Infallible> {
+        Ok(self.step())
+    }
+    fn try_fill_bytes(&mut self, dst: &mut [u8]) -> Result<(), Infallible> {
+        for b in dst.iter_mut() {
+            *b = self.step() as u8;
+        }
+        Ok(())
+    }
+}
+
 // ---------------------------------------------------------------------------------------
 // validator sets
 // ---------------------------------------------------------------------------------------
